@@ -111,7 +111,20 @@ def oracle_c08(obs: dict, params: dict) -> list[tuple[str, str]]:
     callers = [c for c in obs["callers"] if c is not None]
     frames = [c["frame"] for c in callers]
     if len(set(frames)) != len(frames):
-        return []  # attribution by frame needs distinct frames (scenario property)
+        # attribution by frame needs distinct frames. One thing can still be judged when nothing ever comes back and nothing else goes
+        # wrong: the caller that is served first is not given up on before its own time-out or the end of its own retry budget - whatever
+        # becomes of another caller queued behind it with the very same frame
+        env = params.get("env", {})
+        if env.get("echo") is False and env.get("reply") is False and not obs["faults"] and callers:
+            c0 = min(callers, key=lambda c: c["start_seq"])
+            spec = params["callers"][c0["i"]]
+            limit = 1 + min(spec.get("retries", 3), 3)
+            full = BASE * (2**limit - 1)
+            timeout = min(spec.get("timeout", 20.0) or 20.0, CAP)
+            r = c0["res"]
+            if r is not None and r[0] == "exc" and c0["end_t"] is not None and c0["end_t"] - c0["start_t"] < min(timeout, full) - TOL:
+                v.append((f"C08:under-budget:{spec['cmd']}:same-frame-queued-behind", f"{c0['frame']!r} (first caller) was given up after {c0['end_t'] - c0['start_t']:.3f}s < min(timeout {timeout}, budget {full}): {r}; {len(obs['writes'])} transmissions in all"))
+        return v
     by_frame = {c["frame"]: c for c in callers}
     writes: dict[str, list] = {f: [] for f in frames}
     for w in obs["writes"]:
